@@ -96,7 +96,6 @@ def c16_items(tier, rng):
         for r in range(rots):
             valid.append(("dna", lit_text(DNA, n, r + n)))
             valid.append(("iupac", lit_text(IUPAC, n, r + n)))
-    valid.append(("iupac", b"ACX-NX"))          # X is in the macro's alphabet (the gap)
     # beyond 64 machine words (2048 bases / 1024 IUPAC symbols) and a tail that is not a whole word
     for n in ([2049, 2100] if tier == "quick" else [2048, 2049, 2100, 2500, 2999]):
         valid.append(("dna", lit_text(DNA, n, n)))
